@@ -27,6 +27,16 @@ ASSUMPTIONS = [
 _ctr = itertools.count()
 
 
+def map_or(a, b):
+    return z3.Map(z3.Or(z3.Bool("x!"), z3.Bool("y!")).decl(), a, b)
+
+
+def map_ite(c, a, b):
+    vs = a.sort().range()
+    x, y = z3.Const("x!v", vs), z3.Const("y!v", vs)
+    return z3.Map(z3.If(z3.Bool("c!"), x, y).decl(), c, a, b)
+
+
 def fresh(prefix, sort):
     return z3.Const(f"{prefix}!{next(_ctr)}", sort)
 
@@ -442,15 +452,36 @@ class Engine:
         raise EngineError(lst.elem)
 
     def ev_Dict(self, path, e):
-        if e.keys:
-            raise EngineError("non-empty dict display")
-        return self.new_dict(path, e)
+        if not e.keys:
+            return self.new_dict(path, e)
+        if all(k is None for k in e.keys):
+            # {**a, **b, ...}: a new dict, later operands win
+            parts = [self.ev(path, x) for x in e.values]
+            if not all(isinstance(p, SDict) for p in parts):
+                raise EngineError("dict unpacking of non-dict")
+            d = SDict(path.heap.new_id(), parts[0].key, parts[0].val)
+            path.heap.dict_set(d, path.heap.dict_has(parts[0]), path.heap.dict_val(parts[0]))
+            for o in parts[1:]:
+                self._dict_update(path, d, o)
+            return d
+        raise EngineError("non-empty dict display")
+
+    def _dict_update(self, path, d, o):
+        if (o.key, o.val) != (d.key, d.val):
+            raise EngineError("dict.update kind mismatch")
+        ks, vs = path.heap._dsorts(d)
+        k = z3.Const("k!upd", ks)
+        oh, ov = path.heap.dict_has(o), path.heap.dict_val(o)
+        h, v = path.heap.dict_has(d), path.heap.dict_val(d)
+        nh, nv = map_or(h, oh), map_ite(oh, ov, v)     # combinatory array logic: complete, gives models
+        path.heap.dict_set(d, nh, nv)
 
     def new_dict(self, path, e=None, key="str", val=None):
         val = val or (self.c.dict_val_hint(getattr(e, "lineno", None)) if e is not None else None) or "ref"
         d = SDict(path.heap.new_id(), key, val)
         ks, vs = path.heap._dsorts(d)
-        path.heap.dict_set(d, z3.K(ks, z3.BoolVal(False)), fresh("dv0", z3.ArraySort(ks, vs)))
+        dflt = z3.StringVal("") if vs == z3.StringSort() else z3.IntVal(0)
+        path.heap.dict_set(d, z3.K(ks, z3.BoolVal(False)), z3.K(ks, dflt))   # canonical empty dict
         return d
 
     def ev_ListComp(self, path, e):
@@ -1077,15 +1108,7 @@ class Engine:
         o = self.ev(path, e.args[0])
         if not isinstance(o, SDict):
             raise EngineError("dict.update with non-dict")
-        if (o.key, o.val) != (d.key, d.val):
-            raise EngineError("dict.update kind mismatch")
-        ks, vs = path.heap._dsorts(d)
-        k = z3.Const("k!upd", ks)
-        oh, ov = path.heap.dict_has(o), path.heap.dict_val(o)
-        h, v = path.heap.dict_has(d), path.heap.dict_val(d)
-        nh = z3.Lambda([k], z3.Or(z3.Select(h, k), z3.Select(oh, k)))
-        nv = z3.Lambda([k], z3.If(z3.Select(oh, k), z3.Select(ov, k), z3.Select(v, k)))
-        path.heap.dict_set(d, nh, nv)
+        self._dict_update(path, d, o)
         return SNone()
 
     # ---- str methods (z3 String)
